@@ -1,6 +1,6 @@
 """C13 -- parallel tree updates never collide, whatever the thread schedule."""
 import paths
-from facts import strip, show, walk, short
+from facts import const_eval, strip, show, walk, short
 from rules import owner_path, sp, root
 from props.C08 import sync_audit
 
@@ -235,23 +235,58 @@ def r_n4(ctx, gen):
                                 x, y = strip(tt[2]), strip(tt[3])
                                 plus1 = x[0] == 'arg' and y[0] == 'const' and y[2] == 1
                 ok_fresh = mx and dflt[0] == 'const' and dflt[2] == 0 and plus1
+            elif L[0] == 'phi':
+                # match used.max() { Some(id) => id + 1, None => 0 }
+                from reader_rules import phi_defs
+                pd = phi_defs(f, L) or []
+                zero = [(b, t) for b, t in pd if const_eval(t) == 0]
+                succ = []
+                for b, t in pd:
+                    tt = strip(t)
+                    if tt[0] == 'field' and tt[2] == '0' and strip(tt[1])[0] == 'binop':
+                        tt = strip(tt[1])
+                    if tt[0] == 'binop' and tt[1] in ('AddWithOverflow', 'Add') and const_eval(tt[3]) == 1:
+                        x = strip(tt[2])
+                        if x[0] == 'field' and strip(x[1])[0] == 'downcast' and strip(x[1])[2] == 'Some':
+                            src = strip(strip(x[1])[1])
+                            if src[0] == 'call' and src[1].endswith('RoaringBitmap>::max') and is_used(src[2][0]):
+                                succ.append((b, t))
+                ok_fresh = len(pd) == 2 and len(zero) == 1 and len(succ) == 1 and zero[0][0] not in f.reachable(succ[0][0]) and succ[0][0] not in f.reachable(zero[0][0])
         ctx.check(ok_fresh, rule, f.path + '/fresh-start', f.loc(), 'fresh counter starts at used.max()+1 (0 when empty)',
                   'the fresh-id counter does not start at max(used)+1: fresh ids could collide with ids in use (%s)' % {k: show(v) if v else None for k, v in last_terms.items()})
         ctx.check(len(cursor) == 1 and last_terms[cursor[0]][2] == 0, rule, f.path + '/cursor-start', f.loc(), 'recycling cursor starts at 0',
                   'the recycling cursor does not start at 0')
-        # available = from_sorted_iter(0..last_id) - used
+        # available = from_sorted_iter(0..last_id) - used      (or the same set built in place: insert_range + `-=`)
         bms = [fl for fl, ty in fields.items() if 'RoaringBitmap' in ty]
         ok_av = False
+        built_at = None
+        from rules import same
+
+        def full_range(t):
+            rng = [s for s in walk(t) if s[0] == 'agg' and s[1].endswith('ops::Range')]
+            if not rng:
+                return False
+            rd = dict(rng[0][3])
+            return const_eval(rd['start']) == 0 and same(rd['end'], last_terms[fresh[0]])
         if len(bms) == 1 and len(fresh) == 1:
             av = strip(d[bms[0]])
             if av[0] == 'call' and av[1].endswith('ops::Sub::sub'):
                 lhs, rhs = strip(av[2][0]), av[2][1]
-                rng = [s for s in walk(lhs) if s[0] == 'agg' and s[1].endswith('ops::Range')]
-                from rules import same
-                if rng and is_used(rhs):
-                    rd = dict(rng[0][3])
-                    ok_av = strip(rd['start'])[0] == 'const' and strip(rd['start'])[2] == 0 and same(rd['end'], last_terms[fresh[0]]) \
-                        and any(s[0] == 'call' and s[1].endswith('from_sorted_iter') for s in walk(lhs))
+                if is_used(rhs):
+                    ok_av = full_range(lhs) and any(s[0] == 'call' and s[1].endswith('from_sorted_iter') for s in walk(lhs))
+            elif av[0] == 'call':
+                READ_ONLY = ('::is_empty', '::len', '::contains', '::iter', '::min', '::max', '::select', '::clone', '::rank', '::is_subset', '::is_disjoint')
+                muts = [c for c in f.calls() if c.args and strip(c.arg_term(0)) == av and not c.callee.endswith(READ_ONLY)]
+                filled = full_range(av) and any(s[0] == 'call' and s[1].endswith(('from_sorted_iter', 'FromIterator::from_iter', 'Iterator::collect')) for s in walk(av))
+                empty = av[1].endswith('RoaringBitmap>::new') or av[1].endswith('Default::default')
+                seq = list(muts)
+                if empty and seq and seq[0].callee.endswith('RoaringBitmap>::insert_range') and full_range(seq[0].arg_term(1)):
+                    filled = True
+                    first = seq.pop(0)
+                    filled = all(f.dominates(first.bb, c.bb) for c in seq)
+                ok_av = filled and len(seq) == 1 and seq[0].callee.endswith('SubAssign::sub_assign') and is_used(seq[0].arg_term(1)) \
+                    and all(f.dominates(seq[0].bb, rb) for rb, k, t in paths.ret_assigns(f))
+                built_at = seq[0].bb if ok_av else None
         ctx.check(ok_av, rule, f.path + '/free-pool', f.loc(), 'free pool = (0..last_id) - used',
                   'the pool of recyclable ids is not (0..last_id) minus the used set: an id in use could be handed out again')
         # flag = !available.is_empty()
@@ -262,6 +297,9 @@ def r_n4(ctx, gen):
             if fi[0] == 'call' and fi[1].endswith('::new'):
                 x = strip(fi[2][0])
                 ok_flag = x[0] == 'unop' and x[1] == 'Not' and strip(x[2])[0] == 'call' and strip(x[2])[1].endswith('::is_empty')
+                if ok_flag and built_at is not None:
+                    # the emptiness is read after the pool has been completed
+                    ok_flag = f.dominates(built_at, strip(x[2])[3]) and built_at != strip(x[2])[3]
         ctx.check(ok_flag, rule, f.path + '/flag-start', f.loc(), 'recycling mode on iff the pool is non-empty',
                   'the recycling flag is not initialised to !available.is_empty()')
 
